@@ -368,6 +368,18 @@ func c10Classify(c *Ctx) {
 	// each failing step returns the classifier's verdict for its own operation and error
 	for _, step := range []struct{ callee, op string }{{"os.ReadFile", "read"}, {"gopkg.in/yaml.v3.Unmarshal", "parse"}} {
 		calls := callsTo(ld, step.callee)
+		if len(calls) == 0 && step.op == "parse" {
+			// the decoding is a helper given the bytes: its error is the parse
+			// error, and inside it every failed Unmarshal must fail the helper
+			if hc := decodeHelperCall(c, ld); hc != nil {
+				calls = []*ssa.Call{hc}
+				g := hc.Common().StaticCallee()
+				for i, um := range callsTo(g, step.callee) {
+					ok, why := failurePropagates(um)
+					r.Check(ok, "O-4", fmt.Sprintf("%s#decode-failure-%d-returned", load.FuncKey(g), i+1), c.P.Pos(um.Pos()), "a failed decode makes "+g.Name()+" fail", "a failed decode of the file as a list of command entries is not reported by "+g.Name()+" (content that is not a list of entries then loads as if it were): "+why)
+				}
+			}
+		}
 		if len(calls) != 1 {
 			r.Bad("O-4", fk+"#"+step.op+"-step", c.P.Pos(ld.Pos()), fmt.Sprintf("%d calls of %s (want 1)", len(calls), step.callee))
 			continue
@@ -412,6 +424,11 @@ func c10Classify(c *Ctx) {
 	{
 		rd := callsTo(ld, "os.ReadFile")
 		um := callsTo(ld, "gopkg.in/yaml.v3.Unmarshal")
+		if len(um) == 0 {
+			if hc := decodeHelperCall(c, ld); hc != nil {
+				um = []*ssa.Call{hc}
+			}
+		}
 		if len(rd) == 1 && len(um) == 1 {
 			_, fail := nilTests(errValue(rd[0]))
 			barrier := map[*ssa.BasicBlock]bool{um[0].Block(): true}
@@ -421,7 +438,13 @@ func c10Classify(c *Ctx) {
 					good, why = false, "the file can be refused at "+c.P.Pos(ret.Pos())+" after it was read and before the decoder has seen it"
 				}
 			}
-			if resultValue(rd[0], 0) == nil || um[0].Common().Args[0] != resultValue(rd[0], 0) {
+			given := false
+			for _, a := range um[0].Common().Args {
+				if resultValue(rd[0], 0) != nil && a == resultValue(rd[0], 0) {
+					given = true
+				}
+			}
+			if !given {
 				good, why = false, "the decoder is not given exactly the bytes that were read"
 			}
 			r.Check(good, "O-4", fk+"#decoder-decides", c.P.Pos(um[0].Pos()), "every file that was read goes to the decoder unchanged", why+": whether content is a list of entries is the decoder's verdict alone (it accepts encodings and shapes a pre-check would refuse)")
@@ -430,6 +453,11 @@ func c10Classify(c *Ctx) {
 	// success: after both steps succeeded every return carries a nil error and a database
 	{
 		um := callsTo(ld, "gopkg.in/yaml.v3.Unmarshal")
+		if len(um) == 0 {
+			if hc := decodeHelperCall(c, ld); hc != nil {
+				um = []*ssa.Call{hc}
+			}
+		}
 		if len(um) == 1 {
 			_, fail := nilTests(errValue(um[0]))
 			good, n := true, 0
